@@ -49,6 +49,9 @@ var targets = []target{
 	// C20
 	{Pkg: "internal/httprule", Name: "isHex"},
 	{Pkg: "internal/httprule", Name: "consumePchar"},
+	{Pkg: "internal/httprule", Name: "checkIdent"},
+	{Pkg: "internal/httprule/gwbased", Name: "expectIdent"},
+	{Pkg: "internal/httprule/gwbased", Name: "expectPChars"},
 	{Pkg: "internal/httprule/gwbased", Name: "isHexDigit"},
 	// C14
 	{Pkg: "routing", Name: "parseRPCName"},
@@ -1041,6 +1044,7 @@ func (t *tr) mentions(e ast.Expr, objs []types.Object) types.Object {
 func (t *tr) loopStmt(s ast.Stmt, rest []ast.Stmt, c ctx, d int) string {
 	var body *ast.BlockStmt
 	var values, binder string
+	runePre := "" // bindings of index / rune for a range over a string
 	switch x := s.(type) {
 	case *ast.ForStmt:
 		if x.Init == nil && x.Post == nil && x.Cond != nil {
@@ -1102,7 +1106,20 @@ func (t *tr) loopStmt(s ast.Stmt, rest []ast.Stmt, c ctx, d int) string {
 			}
 		case lt == tBytes || lt == tStrs:
 			if b, ok := xt.Underlying().(*types.Basic); ok && b.Info()&types.IsString != 0 {
-				fail(x, "range over a string (iterates UTF-8 runes) outside the subset; index it with `for i := range len(s)`")
+				// a string: Go iterates UTF-8 runes with their byte offsets — GB.Trans.runes
+				values = "(GB.Trans.runes " + t.expr(x.X) + ")"
+				binder = "p"
+				for t.used[binder] {
+					binder += "'"
+				}
+				t.used[binder] = true
+				if keyUsed {
+					runePre += fmt.Sprintf("let %s : Int := %s.1\n", t.nameOf(t.info.Defs[x.Key.(*ast.Ident)]), binder)
+				}
+				if valUsed {
+					runePre += fmt.Sprintf("let %s : Int := %s.2\n", t.nameOf(t.info.Defs[x.Value.(*ast.Ident)]), binder)
+				}
+				break
 			}
 			switch {
 			case keyUsed && valUsed:
@@ -1126,6 +1143,11 @@ func (t *tr) loopStmt(s ast.Stmt, rest []ast.Stmt, c ctx, d int) string {
 	out := ind(d) + fmt.Sprintf("(match GB.Trans.loop (ρ := %s) %s %s (fun %s %s =>\n", t.retType, values, t.stateTuple(state), binder, loopStateBinder(t, state))
 	if len(state) > 1 {
 		out += ind(d+2) + "let " + t.stateTuple(state) + " := st\n"
+	}
+	for _, l := range strings.Split(strings.TrimSuffix(runePre, "\n"), "\n") {
+		if l != "" {
+			out += ind(d+2) + l + "\n"
+		}
 	}
 	out += t.stmts(body.List, inner, d+2)
 	out += ind(d+1) + ") with\n"
